@@ -293,6 +293,8 @@ func valueCorpus() []string {
 		"fn f() {}\nfn main() { let v = { println(1); }; let w = v; let l = [f()]; let a = null; a = f(); let o = new { a: f() }; println(f() == null, l.len(), o); }",
 		"fn main() { let n = null; let c = 0; for i in 0..700 { null; n; match i { 0 => { c += 1; }, _ => { c += 2; }, }; let v = match i { 0 => 1, _ => 2, }; c += v; } println(c); }",
 		"fn f() {}\nfn g() { return f(); }\nfn h() { f() }\nfn main() { for i in 0..700 { g(); h(); f(); if i > 5 { f(); } } println(\"ok\"); }",
+		"fn f(c: bool) -> int { let x = if c { return 1; } else { 2 }; x }\nfn g(c: bool) -> int { let x = if c { 2 } else { return 1; }; x }\nfn h(c: bool) { if c { return; } else { println(\"e\"); } }\nfn main() { println(f(false), f(true), g(false), g(true)); h(true); h(false); }",
+		"fn f(c: bool) -> int { let x = try { if c { return 1; } 3 } catch e { 2 }; x }\nfn g(c: bool) -> int { let x = try { if c { throw(\"t\"); } 3 } catch e { return 4; }; x }\nfn main() { let n = 0; for i in 0..50 { let v = if i > 5 { continue; } else { 2 }; n += v; } println(f(false), f(true), g(false), g(true), n); }",
 		"fn k() -> int { let x = { return 1; }; 2 }\nfn main() { let t = try { throw(\"a\"); 1 } catch e { 2 }; let u = try { 3 } catch e { 4 }; println(t, u, k()); }",
 	)
 	return out
